@@ -20,7 +20,7 @@ BOUNDS = {
     "quick": "values: all reals (no magnitude bound); table: every unit of the three shipped databases (per-unit inverse, monotone, "
              "base identity); ordered pairs: every unit <-> its base unit plus a seeded sample of 2500 other pairs; triples: seeded 600",
     "thorough": "values: all reals; table: every unit, EVERY ordered pair of every quantity type through the real Convert; triples: all "
-                "triples of quantity types with <= 8 units plus a seeded sample of 6000 elsewhere",
+                "triples of quantity types with <= 25 units plus a seeded sample of up to 40000 elsewhere",
 }
 ASSUMPTIONS = [
     "A-FP: floats are exact reals, float literals lifted to their exact rational value; rounding magnitude is outside the claim",
@@ -53,7 +53,7 @@ def items(tier, seed):
                 out += [{"k": "pair", "db": dbn, "qt": qt, "u": u, "v": v} for u, v in basep]
             else:
                 out += [{"k": "pair", "db": dbn, "qt": qt, "u": u, "v": v} for u, v in pairs]
-                if 3 <= len(units) <= 8 and dbn != "posc_nocat":
+                if 3 <= len(units) <= 25 and dbn != "posc_nocat":
                     out += [{"k": "triple", "db": dbn, "qt": qt, "u": u, "v": v, "w": w}
                             for u, v, w in itertools.permutations(units, 3)]
     # seeded extras
@@ -64,7 +64,7 @@ def items(tier, seed):
         if tier == "quick":
             allp += [("default", qt, u, v) for u in units[1:] for v in units[1:] if u != v]
         if len(units) >= 3:
-            k = 3 if tier == "quick" else 12
+            k = 3 if tier == "quick" else 60
             for _ in range(k):
                 u, v, w = rng.sample(units, 3)
                 allt.append(("default", qt, u, v, w))
@@ -72,7 +72,7 @@ def items(tier, seed):
         out += [{"k": "pair", "db": d, "qt": qt, "u": u, "v": v} for d, qt, u, v in seeded_sample(allp, 2500, seed)]
         out += [{"k": "triple", "db": d, "qt": qt, "u": u, "v": v, "w": w} for d, qt, u, v, w in seeded_sample(allt, 600, seed)]
     else:
-        out += [{"k": "triple", "db": d, "qt": qt, "u": u, "v": v, "w": w} for d, qt, u, v, w in seeded_sample(allt, 6000, seed)]
+        out += [{"k": "triple", "db": d, "qt": qt, "u": u, "v": v, "w": w} for d, qt, u, v, w in seeded_sample(allt, 40000, seed)]
     rng.shuffle(out)
     return out
 
